@@ -305,6 +305,10 @@ class PseudoNetCDFMaskedVariable(PseudoNetCDFVariable, np.ma.MaskedArray):
         """
         if 'values' in kwds.keys():
             result = kwds.pop('values')
+            if not isinstance(result, np.ndarray):
+                # a numpy scalar (arithmetic on rank-0 variables) has no
+                # array view: make it a rank-0 array first
+                result = np.ma.asarray(result)
         else:
             shape = []
             for d in dimensions:
